@@ -91,7 +91,9 @@ pub fn check_obs(run: &Run, acc: &mut Acc, q: &str, ast: &Query, dc: &DocCtx, ou
         acc.viol(format!("{} on {}: a returned value is not a node of the document", q, dc.doc), case_json(q, dc.doc, class));
         return Outcome::Violation;
     }
-    let unordered = has_desc(ast) || mode == Mode::Multiset;
+    // RFC 9535 leaves the visiting order of object members under a descendant segment open; C02 fixes it (the document's
+    // own member order, which is what the model produces), the other properties compare such results as multisets
+    let unordered = (has_desc(ast) && run.prop != "C02") || mode == Mode::Multiset;
     let key = |mut v: Vec<u32>| {
         if unordered {
             v.sort();
